@@ -118,7 +118,7 @@ Definition doc_table : list row := [
   mkRow "" "DivideEntry" "DivideEntry" [("const char*", "field_code"); ("const char*", "in_field1"); ("const char*", "in_field2"); ("int", "fragment_index")] (Assigns [] [("field", (CallE "strdup" (Param 0))); ("field_type", (Const "GD_DIVIDE_ENTRY")); ("in_fields[0]", (CallE "strdup" (Param 1))); ("in_fields[1]", (CallE "strdup" (Param 2))); ("fragment_index", (Param 3))] None);
   mkRow "" "Entry" "CheckIndex" [("gd_entype_t", "field_type"); ("int", "n_fields"); ("int", "index")] (Opaque "if (index < 0) return 0; switch (field_type) { case GD_RAW_ENTRY: case GD_INDEX_ENTRY: case GD_CONST_ENTRY: case GD_CARRAY_ENTRY: case GD_SARRAY_ENTRY: case GD_STRING_ENTRY: case GD_NO_ENTRY: case GD_ALIAS_ENTRY: return 0; case GD_LINCOM_ENTRY: if (index > n_fields) return 0; break; case GD_MULTIPLY_ENTRY: case GD_DIVIDE_ENTRY: case GD_INDIR_ENTRY: case GD_SINDIR_ENTRY: case GD_WINDOW_ENTRY: case GD_MPLEX_ENTRY: if (index > 2) return 0; case GD_LINTERP_ENTRY: case GD_BIT_ENTRY: case GD_PHASE_ENTRY: case GD_POLYNOM_ENTRY: case GD_SBIT_ENTRY: case GD_RECIP_ENTRY: if (index > 1) return 0; } return 1;");
   mkRow "" "Entry" "Move" [("int", "new_fragment"); ("unsigned", "flags")] (Opaque "int ret = -1; if (D != NULL) ret = gd_move(D->D, E.field, new_fragment, flags); if (!ret) E.fragment_index = new_fragment; return ret;");
-  mkRow "" "Entry" "Rename" [("const char*", "new_name"); ("unsigned", "flags")] (Opaque "char*ptr; int ret = -1; if (D != NULL) ret = gd_rename(D->D, E.field, new_name, flags); if (ret) { if (E.field == NULL) { E.field = strdup(new_name); } else { char*nn = (char*)malloc(strlen(E.field) + strlen(new_name)); strcpy(nn, E.field); ptr = strchr(nn, '/'); if (ptr) { strcpy(ptr + 1, new_name); } else { free(nn); nn = strdup(new_name); } free(E.field); E.field = nn; } } return ret;");
+  (* CORRECTED: the object takes the new name when the library call succeeds, or when the entry is not associated *) mkRow "" "Entry" "Rename" [("const char*", "new_name"); ("unsigned", "flags")] (Opaque "char*ptr; int ret = -1; if (D != NULL) ret = gd_rename(D->D, E.field, new_name, flags); if (D == NULL || !ret) { if (E.field == NULL) { E.field = strdup(new_name); } else { char*nn = (char*)malloc(strlen(E.field) + strlen(new_name)); strcpy(nn, E.field); ptr = strchr(nn, '/'); if (ptr) { strcpy(ptr + 1, new_name); } else { free(nn); nn = strdup(new_name); } free(E.field); E.field = nn; } } return ret;");
   mkRow "" "Entry" "SetDirfile" [("const GetData::Dirfile*", "dirfile")] (Opaque "D = dirfile;");
   mkRow "" "Entry" "SetName" [("const char*", "name")] (Opaque "this->Rename(name);");
   mkRow "" "Entry" "SetFragmentIndex" [("int", "fragment_index")] (Opaque "this->Move(fragment_index);");
@@ -354,7 +354,7 @@ Definition ctor_types : list (string * string) := [
 ].
 
 (* methods whose code differs from the documented behaviour in the tree as it
-   is (known_findings.d/C20.json); [] once proposed_fixes/C20-1.diff and
-   C20-2.diff are applied *)
+   is (known_findings.d/C20.json); [] once proposed_fixes/C20-1.diff,
+   C20-2.diff and C20-3.diff are applied *)
 Definition known_deviations : list (string * string) :=
-  [("BitEntry", "SetNumBits"); ("SBitEntry", "SBitEntry")].
+  [("BitEntry", "SetNumBits"); ("Entry", "Rename"); ("SBitEntry", "SBitEntry")].
